@@ -4,8 +4,9 @@
 
    G is the type of keys / aggregate keys with its addition gadd (nothing is assumed
    about it unless stated).  Fix flags: f06/fix_f06 = MakeTree checks for a root element,
-   n2/fix_n2 = MakeTree refuses a nil roster, fix_n1 = a peer's tree is stored only while
-   its id is requested and missing, fix_f07/fix_f08 = repairs of C07 on the roster path.
+   n2/fix_n2 = MakeTree refuses a nil roster, fix_n1 = a tree response or bare description is
+   accepted only while its id is requested and missing, pending descriptions are used once
+   and never replace a present tree, fix_f07/fix_f08 = repairs of C07 on the roster path.
    [run gadd fx init ops] ranges over EVERY history of local operations (register a tree,
    create / finish an instance, protocol message for a known or unknown tree, release of an
    unused tree) and peer messages (tree request v0/v1, tree response, bare description,
@@ -176,15 +177,28 @@ Theorem c06_unsolicited_ignored : forall G gadd fx ops (s : cst G) oc tid,
 Proof. exact unsolicited_ignored. Qed.
 Print Assumptions c06_unsolicited_ignored.
 
-(* Strong form, with repair N1, for every state and every peer message: the stored value of
-   an id changes only if that id was requested and not yet received. *)
-Theorem c06_peer_stores_only_requested : forall G gadd fx (s : cst G) (o : op G) s' outs oc tid,
+(* Strong form, with repair N1, for every state and every peer message: a tree that is
+   present is never replaced, and -- the deprecated roster message apart -- the stored value
+   of an id changes only if that id was requested and not yet received. *)
+Theorem c06_peer_never_replaces : forall G gadd fx (s : cst G) (o : op G) s' outs oc tid,
   fix_n1 fx = true -> is_peer o = true ->
   step gadd fx s o = (s', outs, oc) ->
   lookup (c_store s') tid <> lookup (c_store s) tid ->
-  lookup (c_store s) tid = Some None.
-Proof. exact peer_stores_only_requested. Qed.
-Print Assumptions c06_peer_stores_only_requested.
+  tree_state s tid <> Present /\
+  ((forall ro, o <> PRoster ro) -> tree_state s tid = Requested).
+Proof. exact peer_never_replaces. Qed.
+Print Assumptions c06_peer_never_replaces.
+
+(* What repair N1 leaves open (it keeps the existing white-box test of the pending list
+   passing): a bare description accepted while the id was awaited stays pending when the tree
+   then arrives by a full response; after that tree's release the late roster message stores
+   it again. Recorded as a separate known finding. *)
+Theorem c06_late_roster_residual_refuted :
+  exists s1 s2, run Nat.add repaired init (firstn 4 late_roster_ops) = (s1, Fine) /\
+                run Nat.add repaired init late_roster_ops = (s2, Fine) /\
+                tree_state s1 9 = Absent /\ get_tree s2 9 = Some w_t.
+Proof. exact late_roster_residual. Qed.
+Print Assumptions c06_late_roster_residual_refuted.
 
 (* The code as it is: (i) a tree this server registered itself is replaced by what a peer
    sends, unasked, under its id; (ii) a description stays pending for ever, so a roster
